@@ -7,6 +7,8 @@
    len() of a Python bytes object is far below it, so "blen _ < LMAX" excludes nothing real.
    External functions (modular square root, scalar multiplication, the EdDSA classes, base64)
    are universally quantified function arguments.
+   /repo commit 430b0b7 made the removers test for empty and over-long input; before it the
+   error-closure and exactness theorems below were refuted by IndexError / truncated bodies.
    Not covered by theorems (partial): PEM only up to an opaque base64; compressed points only
    relative to a square-root oracle; byte compatibility with OpenSSL is checked by the harness
    (tools/props/C19.py) when an openssl binary is present. *)
@@ -89,18 +91,28 @@ Proof.
 Qed.
 Print Assumptions C19_constructed_roundtrip.
 
-(* remove_octet_string / remove_bitstring / remove_constructed have no length test: they accept a
-   body that is cut short, i.e. a string that is NOT the canonical encoding of what they return *)
-Theorem C19_octet_string_exact_refuted : exists s body r,
-  remove_octet_string s = Ok (body, r) /\ s <> encode_octet_string body ++ r.
-Proof. exists [x04; x05; x01], [x01], []. split; [reflexivity | discriminate]. Qed.
-Print Assumptions C19_octet_string_exact_refuted.
+Theorem C19_octet_string_exact : forall s body r, remove_octet_string s = Ok (body, r) ->
+  s = encode_octet_string body ++ r.
+Proof. intros s body r H. exact (proj2 (remove_octet_string_exact s body r H)). Qed.
+Print Assumptions C19_octet_string_exact.
 
-Theorem C19_bitstring_constructed_exact_refuted :
-  remove_bitstring [x03; x05; x00; x01] (BsInt 0) = Ok ([x01], None, []) /\
-  remove_constructed [xa0; x05; x01] = Ok (0, [x01], []).
-Proof. split; reflexivity. Qed.
-Print Assumptions C19_bitstring_constructed_exact_refuted.
+Theorem C19_bitstring_exact : forall s u body r, remove_bitstring s (BsInt u) = Ok (body, None, r) ->
+  exists enc, encode_bitstring body (BsInt u) = Ok enc /\ s = enc ++ r.
+Proof. exact remove_bitstring_exact. Qed.
+Print Assumptions C19_bitstring_exact.
+
+Theorem C19_constructed_exact : forall s tag body r, remove_constructed s = Ok (tag, body, r) ->
+  exists enc, encode_constructed tag body = Ok enc /\ s = enc ++ r.
+Proof.
+  intros s tag body r H. destruct (remove_constructed_exact s tag body r H) as [Ht [_ Hs]].
+  exists (tlv (n2b (0xA0 + tag)) body). split; [apply encode_constructed_ok, Ht | exact Hs].
+Qed.
+Print Assumptions C19_constructed_exact.
+
+(* the bound l < 256^127 of the length round trip is tight: the next length does not survive *)
+Example C19_length_bound_tight : read_length (encode_length (256 ^ 127)) = Err EUnexpectedDER.
+Proof. vm_compute. reflexivity. Qed.
+Print Assumptions C19_length_bound_tight.
 
 (* ======== truncation and extension ================================================================ *)
 
@@ -184,11 +196,29 @@ Proof.
 Qed.
 Print Assumptions C19_extension_sk.
 
-(* the removers without a length test do NOT reject truncated input *)
-Theorem C19_truncation_octet_string_refuted : exists s k, (k < length (encode_octet_string s))%nat /\
-  exists v, remove_octet_string (firstn k (encode_octet_string s)) = Ok v.
-Proof. exists [x01; x02], 3%nat. split; [cbn; auto | eexists; reflexivity]. Qed.
-Print Assumptions C19_truncation_octet_string_refuted.
+Theorem C19_truncation_octet_string : forall s k, blen s < 256 ^ 127 ->
+  (k < length (encode_octet_string s))%nat ->
+  remove_octet_string (firstn k (encode_octet_string s)) = Err EUnexpectedDER.
+Proof. intros s k H Hk. rewrite encode_octet_string_tlv in *. exact (remove_octet_string_prefix s k H Hk). Qed.
+Print Assumptions C19_truncation_octet_string.
+
+Theorem C19_truncation_bitstring : forall s u enc k m, encode_bitstring s (BsInt u) = Ok enc ->
+  1 + blen s < 256 ^ 127 -> (k < length enc)%nat ->
+  remove_bitstring (firstn k enc) m = Err EUnexpectedDER.
+Proof.
+  intros s u enc k m He Hl Hk. destruct (encode_bitstring_int s u enc He) as [_ [-> _]].
+  apply remove_bitstring_prefix; [|exact Hk]. rewrite blen_cons. exact Hl.
+Qed.
+Print Assumptions C19_truncation_bitstring.
+
+Theorem C19_truncation_constructed : forall tag body enc k, tag <= 31 -> blen body < 256 ^ 127 ->
+  encode_constructed tag body = Ok enc -> (k < length enc)%nat ->
+  remove_constructed (firstn k enc) = Err EUnexpectedDER.
+Proof.
+  intros tag body enc k Ht Hb He Hk. rewrite (encode_constructed_ok tag body Ht) in He.
+  apply ok_inj in He. subst enc. exact (remove_constructed_prefix tag body k Ht Hb Hk).
+Qed.
+Print Assumptions C19_truncation_constructed.
 
 (* ======== fixed-width numbers and point strings (leading zeros included) =========================== *)
 
@@ -274,79 +304,48 @@ Print Assumptions C19_raw_fmt_roundtrip.
 
 (* ======== error-type closure =========================================================================== *)
 
-(* these decoders raise nothing but UnexpectedDER, on every byte string *)
-Theorem C19_errors_primitives : forall s e,
+(* every DER primitive raises nothing but UnexpectedDER, on every byte string *)
+Theorem C19_errors_primitives : forall s m e,
   (read_length s = Err e -> e = EUnexpectedDER) /\
   (remove_sequence s = Err e -> e = EUnexpectedDER) /\
   (remove_integer s = Err e -> e = EUnexpectedDER) /\
-  (remove_object s = Err e -> e = EUnexpectedDER).
+  (remove_object s = Err e -> e = EUnexpectedDER) /\
+  (read_number s = Err e -> e = EUnexpectedDER) /\
+  (remove_octet_string s = Err e -> e = EUnexpectedDER) /\
+  (remove_constructed s = Err e -> e = EUnexpectedDER) /\
+  (remove_bitstring s m = Err e -> e = EUnexpectedDER).
 Proof.
-  intros s e. repeat split.
+  intros s m e. repeat split.
   - apply read_length_err. - apply remove_sequence_err. - apply remove_integer_err. - apply remove_object_err.
+  - apply read_number_err. - apply remove_octet_string_err. - apply remove_constructed_err.
+  - apply remove_bitstring_err.
 Qed.
 Print Assumptions C19_errors_primitives.
 
-(* these index string[0] / body[0] without a length test: IndexError escapes *)
-Theorem C19_errors_primitives_refuted :
-  remove_octet_string [] = Err EIndex /\ remove_constructed [] = Err EIndex /\
-  remove_bitstring [x03; x01] (BsInt 0) = Err EIndex /\ read_number [] = Err EIndex.
-Proof. exact index_error_witnesses. Qed.
-Print Assumptions C19_errors_primitives_refuted.
-
-Theorem C19_errors_primitives_partial : forall s m e,
-  (remove_octet_string s = Err e -> e = EUnexpectedDER \/ e = EIndex) /\
-  (remove_constructed s = Err e -> e = EUnexpectedDER \/ e = EIndex) /\
-  (remove_bitstring s m = Err e -> e = EUnexpectedDER \/ e = EIndex).
-Proof.
-  intros s m e. repeat split.
-  - apply remove_octet_string_err. - apply remove_constructed_err. - apply remove_bitstring_err.
-Qed.
-Print Assumptions C19_errors_primitives_partial.
-
-(* key decoders: every error is a documented one (UnexpectedDER, MalformedPointError, ValueError,
-   UnknownCurveError) - or IndexError; the full-strength statement (without IndexError) is refuted *)
-Theorem C19_errors_vk_from_der_partial :
+(* key and curve decoders: every error is a documented one - UnexpectedDER, MalformedPointError
+   (AssertionError), ValueError, UnknownCurveError - on every byte string, provided the external
+   functions (EdDSA classes, scalar multiplication) keep to that set *)
+Theorem C19_errors_vk_from_der :
   forall sqrt_mod order_ok ed_vk known,
-  (forall w s e, ed_vk w s = Err e -> documented_or_index e) ->
+  (forall w s e, ed_vk w s = Err e -> documented e) ->
   forall s ve ven vex e,
-  vk_from_der sqrt_mod order_ok ed_vk known s ve ven vex = Err e -> documented_or_index e.
+  vk_from_der sqrt_mod order_ok ed_vk known s ve ven vex = Err e -> documented e.
 Proof. exact doi_vk_from_der. Qed.
-Print Assumptions C19_errors_vk_from_der_partial.
+Print Assumptions C19_errors_vk_from_der.
 
-Theorem C19_errors_vk_from_der_refuted :
-  forall sqrt_mod order_ok ed_vk, exists s,
-  vk_from_der sqrt_mod order_ok ed_vk known_curves s None true true = Err EIndex /\ ~ documented EIndex.
-Proof.
-  intros sq ok edv. exists (H 25 0x3017301306072a8648ce3d020106082a8648ce3d0301070301).
-  split; [apply vk_from_der_index_witness|].
-  unfold documented. cbn. intros [H|[H|[H|[H|[]]]]]; discriminate.
-Qed.
-Print Assumptions C19_errors_vk_from_der_refuted.
-
-Theorem C19_errors_sk_from_der_partial :
+Theorem C19_errors_sk_from_der :
   forall sqrt_mod order_ok pubmul ed_sk known,
-  (forall w s e, ed_sk w s = Err e -> documented_or_index e) ->
-  (forall c k e, pubmul c k = Err e -> documented_or_index e) ->
+  (forall w s e, ed_sk w s = Err e -> documented e) ->
+  (forall c k e, pubmul c k = Err e -> documented e) ->
   forall s ven vex e,
-  sk_from_der sqrt_mod order_ok pubmul ed_sk known s ven vex = Err e -> documented_or_index e.
+  sk_from_der sqrt_mod order_ok pubmul ed_sk known s ven vex = Err e -> documented e.
 Proof. exact doi_sk_from_der. Qed.
-Print Assumptions C19_errors_sk_from_der_partial.
+Print Assumptions C19_errors_sk_from_der.
 
-Theorem C19_errors_sk_from_der_refuted :
-  forall sqrt_mod order_ok pubmul ed_sk, exists s,
-  sk_from_der sqrt_mod order_ok pubmul ed_sk known_curves s true true = Err EIndex.
-Proof. intros. exists (H 5 0x3003020101). apply sk_from_der_index_witness. Qed.
-Print Assumptions C19_errors_sk_from_der_refuted.
-
-Theorem C19_errors_curve_from_der_partial : forall sqrt_mod known d ven vex e,
-  curve_from_der sqrt_mod known d ven vex = Err e -> documented_or_index e.
+Theorem C19_errors_curve_from_der : forall sqrt_mod known d ven vex e,
+  curve_from_der sqrt_mod known d ven vex = Err e -> documented e.
 Proof. exact doi_curve_from_der. Qed.
-Print Assumptions C19_errors_curve_from_der_partial.
-
-Theorem C19_errors_curve_from_der_refuted : forall sqrt_mod, exists s,
-  curve_from_der sqrt_mod known_curves s true true = Err EIndex.
-Proof. intros. exists (H 9 0x300702010130003000). apply curve_from_der_index_witness. Qed.
-Print Assumptions C19_errors_curve_from_der_refuted.
+Print Assumptions C19_errors_curve_from_der.
 
 Theorem C19_errors_point_strings : forall sqrt_mod order_ok ed_vk c s validate ve e,
   vk_from_string sqrt_mod order_ok ed_vk (CW c) s validate ve = Err e -> e = EMalformedPoint \/ e = EValue.
@@ -354,13 +353,19 @@ Proof. exact vk_from_string_err_w. Qed.
 Print Assumptions C19_errors_point_strings.
 
 (* the plug-in (PublicEccKeyProxy.create_from_der_fmt) maps UnexpectedDER and MalformedPointError to
-   ValueError; UnknownCurveError and IndexError still escape *)
-Theorem C19_errors_plugin_partial :
+   ValueError; UnknownCurveError passes through (second statement: it really does) *)
+Theorem C19_errors_plugin :
   forall sqrt_mod order_ok ed_vk known,
-  (forall w s e, ed_vk w s = Err e -> documented_or_index e) ->
-  forall d e, create_from_der_fmt sqrt_mod order_ok ed_vk known d = Err e -> In e [EValue; EUnknownCurve; EIndex].
+  (forall w s e, ed_vk w s = Err e -> documented e) ->
+  forall d e, create_from_der_fmt sqrt_mod order_ok ed_vk known d = Err e -> In e [EValue; EUnknownCurve].
 Proof. exact create_from_der_fmt_err. Qed.
-Print Assumptions C19_errors_plugin_partial.
+Print Assumptions C19_errors_plugin.
+
+Example C19_errors_plugin_unknown_curve_example : forall sqrt_mod order_ok ed_vk,
+  create_from_der_fmt sqrt_mod order_ok ed_vk known_curves
+    (H 27 0x3019301306072a8648ce3d020106082a8648ce3d03010803020004) = Err EUnknownCurve.
+Proof. intros. vm_compute. reflexivity. Qed.
+Print Assumptions C19_errors_plugin_unknown_curve_example.
 
 (* ======== PEM (partial: base64 is an opaque pair of functions) ====================================== *)
 
